@@ -595,7 +595,13 @@ int KSI_TreeBuilder_close(KSI_TreeBuilder *builder) {
 				root = node;
 			} else {
 				res = KSI_TreeNode_join(builder->ctx, builder->hsr, node, root, &tmp);
-				if (res != KSI_OK) goto cleanup;
+				if (res != KSI_OK) {
+					/* Nothing may be lost: put the node and the part merged so far (into the slot
+					 * below, which has just been emptied) back, so that the call can be repeated. */
+					builder->stack[i] = node;
+					builder->stack[i - 1] = root;
+					goto cleanup;
+				}
 
 				root = tmp;
 				tmp = NULL;
